@@ -92,6 +92,22 @@ Theorem C11_hmmer_refilter_spec : forall max_evalue min_score r r',
 Proof. exact refilter_spec. Qed.
 Print Assumptions C11_hmmer_refilter_spec.
 
+(* narrowing saved results on reuse gives what a fresh run with the new limits gives (hmmer.build_hits: exclusive limits)
+   for every hit that does not lie exactly on a limit; on a limit the inclusive test of refilter keeps a hit that a fresh
+   run does not report (finding FC11b refilter_inclusive_limits, recorded: two existing tests pin it) *)
+Theorem C11_hmmer_refilter_as_fresh_run_partial : forall max_evalue min_score h s e,
+  as_num (hit_field K_score h) = Ok s -> as_num (hit_field K_evalue h) = Ok e ->
+  qeq s min_score = false -> qeq e max_evalue = false ->
+  hit_passes max_evalue min_score h = Ok (fresh_run_keeps max_evalue min_score s e).
+Proof. exact hit_passes_as_fresh_run. Qed.
+Print Assumptions C11_hmmer_refilter_as_fresh_run_partial.
+
+Theorem C11_hmmer_refilter_on_limit_refuted : exists max_evalue min_score h s e,
+  as_num (hit_field K_score h) = Ok s /\ as_num (hit_field K_evalue h) = Ok e /\
+  hit_passes max_evalue min_score h = Ok true /\ fresh_run_keeps max_evalue min_score s e = false.
+Proof. exact hit_passes_on_limit_differs. Qed.
+Print Assumptions C11_hmmer_refilter_on_limit_refuted.
+
 Theorem C11_guards_hmmer_refilter_lenient : forall max_evalue min_score r,
   qlt (hr_evalue r) max_evalue = true \/ qlt min_score (hr_score r) = true ->
   refilter max_evalue min_score r = Err E_Value.
